@@ -329,10 +329,15 @@ def just_spec(rng):
     spec['nattrs'] = 32
     # glyph attributes 8.. hold stretch/shrink/step/weight per level
     spec['jlevels'] = [(8 + 4 * l, 9 + 4 * l, 10 + 4 * l, 11 + 4 * l) for l in range(nlev)]
+    extreme = rng.random() < 0.3          # stretch / shrink / step / weight at the edges of their 16-bit range (negative weights and steps included)
+    spec['just_extreme'] = extreme
     for g in spec['glyphs'][1:]:
         for l in range(nlev):
             if rng.random() < 0.7:
                 g['attrs'].update({8 + 4 * l: rng.choice([0, 50, 200, 1000]), 9 + 4 * l: rng.choice([0, 20, 100]), 10 + 4 * l: rng.choice([0, 1, 5]), 11 + 4 * l: rng.choice([0, 1, 2, 5])})
+            if extreme and rng.random() < 0.5:
+                g['attrs'].update({8 + 4 * l: rng.choice([0, 1, 32767, 32768, 65535]), 9 + 4 * l: rng.choice([0, 1, 32767, 65535]),
+                                   10 + 4 * l: rng.choice([0, 1, 2, 32767, 65535]), 11 + 4 * l: rng.choice([0, 1, 32767, 32768, 65535])})
     line_ends = rng.random() < 0.5
     spec['flags'] = 1 if line_ends else 0
     spec['lbgid'] = rng.choice([0, rng.randrange(1, 13)])
